@@ -86,6 +86,7 @@ var words = []string{"Order", "Trade", "Quote", "Logon", "Logout", "Heart", "Bea
 
 type gen struct {
 	big        bool
+	huge       bool
 	inlineUsed []string // inline object names used so far (reused on purpose now and then)
 	r     *Rng
 	used  map[string]bool
@@ -171,8 +172,13 @@ func GenDegenerate(seed uint64) *Prog {
 
 // GenProgSized: big = a protocol with dozens of packets and many fields, so
 // that single generated files pass size thresholds (64 KiB and more).
-func GenProgSized(seed uint64, big bool) *Prog {
-	g := &gen{r: NewRng(seed), used: map[string]bool{}, big: big}
+// GenProgHuge: 130 to 290 small packets, references as in big programs.
+func GenProgHuge(seed uint64) *Prog { return genProg(seed, true, true) }
+
+func GenProgSized(seed uint64, big bool) *Prog { return genProg(seed, big, false) }
+
+func genProg(seed uint64, big, huge bool) *Prog {
+	g := &gen{r: NewRng(seed), used: map[string]bool{}, big: big, huge: huge}
 	r := g.r
 	p := &Prog{Semicolons: r.Chance(3, 4)}
 	switch r.Intn(14) {
@@ -257,6 +263,9 @@ func GenProgSized(seed uint64, big bool) *Prog {
 	}
 	if g.big {
 		npk = 45 + r.Intn(25)
+	}
+	if g.huge {
+		npk = 130 + r.Intn(160)
 	}
 	names := make([]string, npk)
 	for i := range names {
@@ -498,6 +507,9 @@ func (g *gen) genPacket(names []string, idx int) *Pkt {
 	}
 	if g.big {
 		nf = 10 + r.Intn(14)
+	}
+	if g.huge {
+		nf = 1 + r.Intn(4)
 	}
 	for i := 0; i < nf; i++ {
 		f := g.simpleField(local, names, idx, 2)
